@@ -13,6 +13,7 @@
    and their exact boundary is located by grids (operator x operand kind x preceding token); the grids are evidence.
 4. evidence: histogram of the constructs actually generated, measured on the implementation's own tokens."""
 import collections
+import json
 import multiprocessing as mp
 import os
 import random
@@ -274,7 +275,9 @@ def summarise_unary(t):
 RULE = ("programs of the conforming family G (family.program: .c and .h units; one third boundary programs of family_ext on a limit: 25 body "
         "lines, 5 functions, 4 parameters, 5 variables, lines of exactly 80 columns in statement / condition / function header / prototype / "
         "#define), each analysed by /repo's Lexer + Registry.run, a tenth also through main() on a file on disk (verdict line, exit status); "
-        "required: analysis ends normally, no Error-level diagnostic, status OK, `<name>: OK!`, exit 0.  Plus the grids of the four known "
+        "required: analysis ends normally, no Error-level diagnostic, status OK, `<name>: OK!`, exit 0.  Plus runs of several files in ONE invocation "
+        "(subprocess, --no-colors and -f json): conforming .c / .h files before, between and after files with Errors and after Notice-only files; every "
+        "conforming file must be `<name>: OK!` / status OK without errors in every position, exit 0 iff no file has an Error.  Plus the grids of the four known "
         "false-positive families inside conforming hosts.  non-trivial = distinct source texts that contain at least one function body or "
         "prototype (every generated program); distinct = by source text")
 
@@ -301,6 +304,13 @@ def run(run, tier, seed, replay=None):
                     found |= run.violation(v.split(":", 1)[1], dict(d, details=det))
                 elif cli:
                     found |= run.violation("cli-verdict-or-exit", dict(d, cli=cli))
+            elif "files" in d:
+                files = [tuple(f) for f in d["files"]]
+                problems, classes = multi_run(files, "replay")
+                run.count("replayed multi-file run", 1, 1)
+                run.sample({"files": [f[1] for f in files], "classes": classes, "problems": problems[:3]})
+                if problems:
+                    found |= run.violation("multi-file-run", dict(d, problems=problems[:6], classes=classes))
             else:
                 run.count("replayed obligation", 1, 0)
             common.broken_obligations(run, b, found)
@@ -351,9 +361,11 @@ def run(run, tier, seed, replay=None):
                                                         "expected": "%s: OK!, no Error-level diagnostic, exit 0" % out["name"]})
         with mp.get_context("fork").Pool(common.NPROC) as pool:
             ktables, f2 = k_grids(run, seed, tier, pool)
-        found |= f2
+            f3, multi_pos = multi_files(run, seed, tier, pool)
+        found |= f2 | f3
         common.broken_obligations(run, b, found)
         return finish(run, b, {"programs": n, "by_kind": dict(tags), "through_cli": ncli, "failing_programs": len(bad),
+                               "positions_of_conforming_files_in_multi_file_runs": multi_pos,
                                "build_wall_s (includes waiting for the shared build lock)": round(b.wall, 1),
                                "search_wall_s": round(time.time() - t_search, 1)}, ktables, hist)
     finally:
@@ -390,6 +402,136 @@ def registry_checks():
         with open(p) as f:
             out += re.findall(r"^class (Check\w+)\(", f.read(), flags=re.M)
     return sorted(out)
+
+
+# ---------------------------------------------------------------------------------------------- several files in one invocation
+BAD_FILES = [("bad_ret.c", impl.HDR + "\nint\tmain(void)\n{\n\treturn 0;\n}\n"),
+             ("bad_spc.c", impl.HDR + "\nint\tmain(void)\n{\n\tint\ta;\n\n\ta  = 1;\n\treturn (a);\n}\n"),
+             ("bad_guard.h", impl.HDR + "\n#ifndef WRONG_H\n# define WRONG_H\n\nint\tf(void);\n\n#endif\n"),
+             ("bad_tern.c", impl.HDR + "\nint\tmain(int ac)\n{\n\treturn (ac ? 1 : 0);\n}\n")]
+NOTICE_FILES = [("note_g.c", impl.HDR + "\nint\tg_v = 1;\n\nint\tmain(void)\n{\n\treturn (g_v);\n}\n")]
+MULTI_PATTERNS = [["bad", "good", "good"], ["good", "bad", "good"], ["good", "good", "bad"], ["notice", "good"], ["good", "notice", "good"],
+                  ["bad", "notice", "good"], ["notice", "bad", "good", "bad", "good"], ["good", "good", "good"], ["bad", "bad", "good"],
+                  ["bad", "good"], ["good"], ["notice", "notice", "good", "bad"]]
+
+
+def multi_case(seed, k):
+    """run k: the file classes in argument order and the files [(class, name, source)]"""
+    r = random.Random("%d/multi/%d" % (seed, k))
+    pat = MULTI_PATTERNS[k] if k < len(MULTI_PATTERNS) else [r.choice(["good", "good", "bad", "notice"]) for _ in range(r.randint(2, 6))]
+    if "good" not in pat:
+        pat.insert(r.randrange(len(pat) + 1), "good")
+    files = []
+    for cls in pat:
+        if cls == "good":
+            for _ in range(40):
+                name, src = family.program(r, kind=r.choice(["c", "c", "h"])) if r.random() < 0.7 else fx.boundary_program(r)[:2]
+                res = impl.analyse(src, name)
+                if judge(name, src, res)[0] == "ok" and not any(d[2] == "Notice" for d in res["diags"]):
+                    break
+            else:
+                name, src = "plain.c", impl.HDR + "\nint\tmain(void)\n{\n\treturn (0);\n}\n"
+        elif cls == "bad":
+            name, src = r.choice(BAD_FILES)
+        else:
+            name, src = r.choice(NOTICE_FILES)
+        files.append((cls, name, src))
+    return files
+
+
+def multi_run(files, tag):
+    """the files in one invocation, humanized and JSON; -> list of problems (empty = fine)"""
+    d = os.path.join(TMP, "m%d_%s" % (os.getpid(), tag))
+    shutil.rmtree(d, ignore_errors=True)
+    paths = []
+    for i, (cls, name, src) in enumerate(files):
+        sub = os.path.join(d, "d%d" % i)
+        os.makedirs(sub, exist_ok=True)
+        with open(os.path.join(sub, name), "w") as f:
+            f.write(src)
+        paths.append(os.path.join("d%d" % i, name))
+    problems = []
+    classes = []
+    for cls, name, src in files:                 # the class of a fixed file is re-established on the tree under test
+        res = impl.analyse(src, name)
+        errs = errors_of(res) if res["kind"] == "ok" else None
+        classes.append("fatal" if errs is None else "bad" if errs else "notice" if res["diags"] else "good")
+    if "fatal" in classes:
+        shutil.rmtree(d, ignore_errors=True)
+        return [], classes
+    want_exit = 1 if "bad" in classes else 0
+    try:
+        code, out, err, exc = impl.run_main_subprocess(["--no-colors"] + paths, cwd=d)
+        try:
+            rep = impl.parse_human(out) if exc is None else None
+        except ValueError as e:
+            rep, exc = None, ("unparsable", str(e))
+        if rep is None or len(rep) != len(files):
+            problems.append({"format": "humanized", "what": "report does not hold one verdict per file", "stdout": out[:1500], "stderr": err[-400:], "exc": exc})
+        else:
+            for i, ((cls, name, src), k, (base, verdict, lines)) in enumerate(zip(files, classes, rep)):
+                if base != name:
+                    problems.append({"format": "humanized", "position": i, "what": "verdict line names %r, expected %r" % (base, name)})
+                elif k in ("good", "notice") and (verdict != "OK" or any(x[0] == "Error" for x in lines)):
+                    problems.append({"format": "humanized", "position": i, "file": name, "classes": classes,
+                                     "what": "%s file printed `%s: %s!` (%d diagnostic lines) - expected `%s: OK!`" % (
+                                         "conforming" if k == "good" else "Notice-only", base, verdict, len(lines), name)})
+                elif k == "bad" and verdict != "Error":
+                    problems.append({"format": "humanized", "position": i, "file": name, "classes": classes, "what": "file with an Error printed OK!"})
+            if code != want_exit:
+                problems.append({"format": "humanized", "what": "exit status %r, expected %d" % (code, want_exit), "classes": classes})
+        code, out, err, exc = impl.run_main_subprocess(["-f", "json"] + paths, cwd=d)
+        try:
+            js = json.loads(out)["files"] if exc is None else None
+        except (ValueError, KeyError, TypeError):
+            js = None
+        if js is None or len(js) != len(files):
+            problems.append({"format": "json", "what": "report does not hold one entry per file", "stdout": out[:1500], "stderr": err[-400:], "exc": exc})
+        else:
+            for i, ((cls, name, src), k, e) in enumerate(zip(files, classes, js)):
+                nerr = sum(1 for x in e.get("errors", []) if x.get("level") != "Notice")
+                if os.path.basename(e.get("path", "")) != name:
+                    problems.append({"format": "json", "position": i, "what": "entry is for %r, expected %r" % (e.get("path"), name)})
+                elif k in ("good", "notice") and (e.get("status") != "OK" or nerr):
+                    problems.append({"format": "json", "position": i, "file": name, "classes": classes,
+                                     "what": "conforming file has status %r and %d errors - expected OK and none" % (e.get("status"), nerr)})
+                elif k == "bad" and e.get("status") != "Error":
+                    problems.append({"format": "json", "position": i, "file": name, "classes": classes, "what": "file with an Error has status OK"})
+            if code != want_exit:
+                problems.append({"format": "json", "what": "exit status %r, expected %d" % (code, want_exit), "classes": classes})
+    finally:
+        shutil.rmtree(d, ignore_errors=True)
+    return problems, classes
+
+
+def multi_work(task):
+    seed, k = task
+    files = multi_case(seed, k)
+    problems, classes = multi_run(files, "k%d" % k)
+    return k, files, classes, problems
+
+
+def multi_files(run, seed, tier, pool):
+    """conforming files before, between and after violating and Notice-only files, in ONE invocation"""
+    found = False
+    n = 24 if tier == "quick" else 300
+    pos = collections.Counter()
+    shown = 0
+    for k, files, classes, problems in pool.imap_unordered(multi_work, [(seed, k) for k in range(n)], chunksize=2):
+        ngood = classes.count("good")
+        run.count("several files in one invocation (humanized + json)", 1, 1 if ngood and len(files) > 1 else 0)
+        for i, c in enumerate(classes):
+            if c == "good":
+                before = set(classes[:i])
+                pos["conforming file %s" % ("first" if i == 0 else "after " + "+".join(sorted(before)))] += 1
+        if problems and shown < 5:
+            shown += 1
+            found |= run.violation("multi-file-run", {"files": [list(f) for f in files], "classes": classes, "problems": problems[:6],
+                                                      "expected": "every conforming file `<name>: OK!` / status OK without errors, exit 0 iff no file has an Error",
+                                                      "command": "python -m norminette --no-colors <files in this order>  and  -f json"})
+        elif k == 0:
+            run.sample({"files_in_one_invocation": [f[1] for f in files], "classes": classes, "verdicts": "as expected in both formats"})
+    return found, dict(pos)
 
 
 def group(hist, prefix):
